@@ -593,6 +593,14 @@ func main() {
 				}
 				continue
 			}
+			if len(f) >= 4 && f[0] == "C01" && f[1] == "fold" {
+				if kind == "fold" {
+					if k, err := strconv.Atoi(f[2]); err == nil {
+						runFoldCase(out, k, strings.Split(f[3], ","))
+					}
+				}
+				continue
+			}
 			if len(f) < 5 || f[0] != "C01" {
 				continue
 			}
@@ -647,6 +655,17 @@ func main() {
 			r := root.Fork(uint64(k) + 991)
 			retries, steps := genRedirCase(r, k)
 			runRedirCase(out, retries, steps)
+		}
+	case "fold":
+		if n < 0 {
+			n = 4
+		}
+		for k := 0; k < n; k++ {
+			if a.Only >= 0 && k != a.Only {
+				continue
+			}
+			r := root.Fork(uint64(k) + 4242)
+			runFoldCase(out, k, genFoldCase(r, k))
 		}
 	default:
 		if n < 0 {
